@@ -233,7 +233,9 @@ class Explorer:
 
     _n = 0
 
-    def __init__(self, jobs=None):
+    def __init__(self, jobs=None, extra_src=None):
+        """extra_src: {path relative to the source root: text} written into the harness' *snapshot* of the source
+        tree (never into the repository): generated profiles that go through the real pipeline next to the shipped ones"""
         Explorer._n += 1
         self.root = os.path.join(C.scratch(), 'cfgx%d' % Explorer._n)
         os.makedirs(self.root, exist_ok=True)
@@ -241,6 +243,10 @@ class Explorer:
         self.snap = os.path.join(self.root, 'src')
         for d in SRC_DIRS:
             shutil.copytree(os.path.join(C.REPO, d), os.path.join(self.snap, d), symlinks=True)
+        for rel, txt in (extra_src or {}).items():
+            q = os.path.join(self.snap, rel)
+            os.makedirs(os.path.dirname(q), exist_ok=True)
+            open(q, 'w').write(txt)
         plain, inst = overlay.build_prebuild(os.path.join(self.root, 'bin'))
         self.bins = {'plain': plain, 'inst': inst}
         self.pool = ProcessPoolExecutor(jobs or C.NPROC, initializer=_winit,
